@@ -198,7 +198,8 @@ Inductive msg :=
 | ToErc20 (sender receiver : acct) (denom : name) (amt : Z)
 | FromErc20 (sender receiver : acct) (denom : name) (amt : Z)
 | SetParams (auth : acct) (tax ratio base : Z) (enable beacon : bool)
-| EvmMode (m : Z).
+| EvmMode (m : Z)
+| HookToNative (c : Z) (from to : acct) (amt : Z).
 
 (** ValidateBasic of each message *)
 Definition effective_max (max initial : Z) (mintable : bool) : Z :=
@@ -223,6 +224,7 @@ Definition validate_basic (m : msg) : bool :=
   | SetParams auth tax ratio base _ _ =>
       valid_addr auth && (0 <=? tax) && (tax <=? P18) && (0 <=? ratio) && (ratio <=? P18) && (0 <=? base)
   | EvmMode _ => true
+  | HookToNative _ from _ amt => valid_addr from && (0 <=? amt)
   end.
 
 (** msgServer.IssueToken + Keeper.IssueToken + AddToken/assertTokenValid *)
@@ -385,6 +387,29 @@ Definition do_set_params (s : state) auth tax ratio base enable beacon : res sta
   if negb (auth =? GOV) then RRej
   else ROk (upd_pars s (mkParams tax ratio base (p_fee_denom (pars s)) enable beacon)).
 
+(** An EVM transaction in which the bound contract [c] burns [amt] of [from]'s ERC20 balance and
+    emits SwapToNative(from, to, amt) — the contract's own behaviour, simulated by the harness —
+    followed by erc20Hook.PostTxProcessing (keeper/evm_hook.go) on its receipt: the token is found
+    through the contract index, and exactly [amt] of its min unit is minted to [to]. *)
+Definition do_hook (s : state) c from to amt : res state :=
+  if erc20_bal s c from <? amt then RRej                    (* the contract reverts *)
+  else
+    match get c (contracts s) with
+    | None => RRej                                           (* no such contract in the double *)
+    | Some sym =>
+        match token_by_symbol s sym with
+        | None => RRej
+        | Some t =>
+            if negb (p_erc20 (pars s)) then RRej
+            else if negb (valid_addr to) then RRej
+            else if amt =? 0 then RRej
+            else
+              let s1 := upd_erc20 s (set (c, from) (erc20_bal s c from - amt) (erc20 s)) in
+              do s2 <- bank_mint s1 (t_minunit t) amt;
+              bank_pay s2 to (t_minunit t) amt
+        end
+    end.
+
 Definition handle (s : state) (m : msg) : res state :=
   match m with
   | Issue owner sym minu nm scale initial max mintable => do_issue s owner sym minu nm scale initial max mintable
@@ -398,6 +423,7 @@ Definition handle (s : state) (m : msg) : res state :=
   | FromErc20 sender receiver denom amt => do_from_erc20 s sender receiver denom amt
   | SetParams auth tax ratio base enable beacon => do_set_params s auth tax ratio base enable beacon
   | EvmMode m => ROk (upd_mode s m)
+  | HookToNative c from to amt => do_hook s c from to amt
   end.
 
 (** one message = one transaction: ValidateBasic, then the handler; a failure changes nothing *)
